@@ -109,13 +109,17 @@ def schedules(ctx):
                     ctx.require(wdv == up, 'C13.S2', 'the weekday used is the validated (upper-cased) one', fn.site(), fmt(wdv) if wdv else None, key='C13.S2|validated')
                     fr = k.get('freq') or ZERO
                     fr_ok = fold_fmt(fr) == ('fmt', ('str', 'W-%s'), ('tuple', (up,)))
+                    # the weekday this path was taken for, when the code dispatched on it (a table of frequencies / offsets per weekday)
+                    known = [x_[3][1] if x_[2] == up else x_[2][1] for x_, v_, _ in p0.conds if v_ and x_[0] == 'cmp' and x_[1] == '==' and up in (x_[2], x_[3])
+                             and (x_[3] if x_[2] == up else x_[2])[0] == 'str']
+                    names = ['MON', 'TUE', 'WED', 'THU', 'FRI', 'SAT', 'SUN']
                     if not fr_ok and fr[0] == 'call' and fr[1][0] == 'ext' and fr[1][1].endswith('offsets.Week') and not fr[2]:
                         # a Week offset anchored on a weekday NUMBER: right iff the number is that of the weekday this path was taken for
-                        known = [x_[3][1] if x_[2] == up else x_[2][1] for x_, v_, _ in p0.conds if v_ and x_[0] == 'cmp' and x_[1] == '==' and up in (x_[2], x_[3])
-                                 and (x_[3] if x_[2] == up else x_[2])[0] == 'str']
                         n_ = dict(fr[3]).get('weekday')
-                        names = ['MON', 'TUE', 'WED', 'THU', 'FRI', 'SAT', 'SUN']
                         fr_ok = len(known) == 1 and known[0] in names and n_ == num(names.index(known[0])) and set(dict(fr[3])) == {'weekday'}
+                    elif not fr_ok and fr[0] == 'str' and len(known) == 1:
+                        # a literal frequency string chosen per weekday: right iff it names that weekday
+                        fr_ok = fr[1] == 'W-' + known[0]
                     ok = dates[0] == 'call' and dates[1] == ('ext', 'pandas.date_range') and a0 == st_ and a1 == en_ and fr_ok and not (set(k) - {'start', 'end', 'freq'})
                     ctx.require(ok, 'C13.S1', "weekly dates = pd.date_range(start, end, freq='W-<weekday>') over the unmodified range", fn.site(), fmt(dates)[:200], key='C13.S1|weekly|range')
                 elif c == 'DailyRebalance':
